@@ -218,7 +218,9 @@ def st_history(long_ids: bool):
     filler = st.tuples(st.just('filler'), st.integers(201, 230)).map(list)
     # a local service is published again with other metadata (a provider that was relocated)
     republish = st.tuples(st.just('republish'), st.integers(0, len(LOCAL) - 1), st.integers(0, 2), st.booleans()).map(list)
-    steps = [ann, ann, ann, bye, probe, probe, resolve, republish]
+    # the application's callbacks (hello / bye / probe / probe matches / resolve match): none, well-behaved, or raising
+    callbacks = st.tuples(st.just('callbacks'), st.sampled_from(['none', 'ok', 'raise', 'raise'])).map(list)
+    steps = [ann, ann, ann, bye, probe, probe, resolve, republish, callbacks]
     if long_ids:
         # the memory of 200 ids is full from the start, and may be flushed again later
         return st.tuples(filler, st.lists(st.one_of([*steps, probe, resolve, filler]), min_size=1, max_size=14)).map(
@@ -352,6 +354,20 @@ def history_case(ctx, hist):  # noqa: C901, PLR0912, PLR0915
             if rec.outbound[n_out:]:
                 raise R.HarnessError('filler messages must not be answered: ' + str([(m.p_msg.header_info_block.Action, a) for m, a, *_ in rec.outbound][:3]))
             del dispatched[:]
+            continue
+        if step[0] == 'callbacks':
+            mode = step[1]
+
+            def cb(*_a, mode=mode):
+                if mode == 'raise':
+                    raise RuntimeError('vf: the application callback failed')
+            fn = None if mode == 'none' else cb
+            wsd.set_remote_service_hello_callback(fn)
+            wsd.set_remote_service_bye_callback(fn)
+            wsd.set_remote_service_resolve_match_callback(fn)
+            wsd.set_on_probe_callback(fn)
+            wsd.set_on_probe_matches_callback(fn)
+            flags['raising-callbacks'] = flags.get('raising-callbacks', False) or mode == 'raise'
             continue
         if step[0] == 'republish':
             _, idx, variant, with_b = step
